@@ -30,23 +30,25 @@ type c04Timer struct {
 }
 
 type c04 struct {
-	c       *Ctx
-	w       *sim.World
-	ioc     *sonic.IO
-	timers  []*c04Timer
-	nextID  int
-	quiesce bool
-	depth   int // callback nesting depth (0 = top level)
-	inTimer *c04Timer
-	fifo    *sim.Fifo
-	file    sonic.File
-	rbuf    []byte
-	readArm bool
+	zeroChain int // budget of zero-delay re-schedules from inside the callback (each one nests one level deeper)
+	c         *Ctx
+	w         *sim.World
+	ioc       *sonic.IO
+	timers    []*c04Timer
+	nextID    int
+	quiesce   bool
+	depth     int // callback nesting depth (0 = top level)
+	inTimer   *c04Timer
+	fifo      *sim.Fifo
+	file      sonic.File
+	rbuf      []byte
+	readArm   bool
 }
 
 var (
 	c04pStale    = sim.RegStat("probe:c04-op-on-timer-expired-in-same-batch")
 	c04pInlineCb = sim.RegStat("probe:c04-nonpositive-delay-inline")
+	c04pDeepZero = sim.RegStat("probe:c04-zero-delay-schedule-nested-deeper-than-33")
 	c04pRepeat   = sim.RegStat("probe:c04-repeating-fired>=2")
 	c04pFromIO   = sim.RegStat("probe:c04-timer-op-from-io-handler")
 	c04pReject   = sim.RegStat("probe:c04-schedule-while-scheduled-rejected")
@@ -158,6 +160,24 @@ func (s *c04) behave(self *c04Timer, beh int) {
 		if o := s.pickTimer(); !s.ownRepeating(o) {
 			s.doScheduleRepeating(o, s.pickDelay(), 0)
 		}
+	case 8: // re-schedule itself with no delay, which runs inline, one level deeper each time; then stop the timer
+		if self == nil || s.ownRepeating(self) || self.closed {
+			return
+		}
+		if s.zeroChain > 0 {
+			s.zeroChain--
+			if s.depth > 33 {
+				w.Stat(c04pDeepZero)
+			}
+			s.doScheduleOnce(self, int64(w.Pick(0, 0, -1)), 8)
+			return
+		}
+		switch w.Choose(3) {
+		case 0:
+			s.doCancel(self)
+		case 1:
+			s.doClose(self)
+		}
 	}
 }
 
@@ -205,9 +225,12 @@ func (s *c04) doScheduleOnce(m *c04Timer, d int64, beh int) {
 		if err != nil {
 			c.Failf("schedule-failed", "ScheduleOnce(%d) on ready timer %d: %v", d, m.ix, err)
 		}
-		if sc.fired != 1 {
-			c.Failf("nonpositive-delay-not-run", "ScheduleOnce(%d) did not run its callback as soon as possible (fired=%d)", d, sc.fired)
+		if sc.fired > 1 {
+			c.Failf("once-fired-twice", "ScheduleOnce(%d) ran its callback %d times before returning", d, sc.fired)
 		}
+		// sonic runs it before returning; the statement only asks that it runs once the loop is polled, so an
+		// implementation that hands it to the loop is judged like any pending schedule: it is the timer's one
+		// schedule, Scheduled() says so, Cancel and Close stop it, and it fires by the end of the run
 	default:
 		if err != nil {
 			c.Failf("schedule-failed", "ScheduleOnce(%d) on ready timer %d: %v", d, m.ix, err)
@@ -397,11 +420,12 @@ func runC04(c *Ctx, variant int) {
 		s.rbuf = make([]byte, 8)
 		s.armRead()
 	}
+	s.zeroChain = w.Pick(0, 5, 40, 100)
 	steps := w.Range(5, c.Deep(40))
 	for i := 0; i < steps; i++ {
 		switch w.Choose(12) {
 		case 0, 1:
-			s.doScheduleOnce(s.pickTimer(), s.pickDelay(), w.Choose(8))
+			s.doScheduleOnce(s.pickTimer(), s.pickDelay(), w.Choose(9))
 		case 2:
 			s.doScheduleRepeating(s.pickTimer(), s.pickDelay(), w.Pick(0, 5, 1, 2, 6))
 		case 3:
